@@ -443,3 +443,140 @@ Section ProgSteps.
       + destruct (exec s c) as [s' a] eqn:E. apply IH. apply Hk. reflexivity.
   Qed.
 End ProgSteps.
+
+(* ------------------------------------------------ read-only agents *)
+(* Threads that only issue commands leaving the substrate unchanged (load,
+   get) can be erased from any schedule: state and the other threads are what
+   the schedule without their steps produces. *)
+Lemma set_nth_app1 {A} i (x : A) l1 l2 : (i < length l1)%nat -> set_nth i x (l1 ++ l2) = set_nth i x l1 ++ l2.
+Proof.
+  revert i; induction l1 as [|y l1 IH]; intros i H; cbn [length] in H; [lia|].
+  destruct i; cbn [app set_nth]; [reflexivity|rewrite IH by lia; reflexivity].
+Qed.
+
+Lemma set_nth_app2 {A} i (x : A) l1 l2 : (length l1 <= i)%nat -> set_nth i x (l1 ++ l2) = l1 ++ set_nth (i - length l1) x l2.
+Proof.
+  revert i; induction l1 as [|y l1 IH]; intros i H; cbn [length app].
+  - rewrite Nat.sub_0_r. reflexivity.
+  - cbn [length] in H. destruct i; [lia|]. cbn [set_nth Nat.sub]. rewrite IH by lia. reflexivity.
+Qed.
+
+Lemma Forall_set_nth {A} (P : A -> Prop) i x l : P x -> Forall P l -> Forall P (set_nth i x l).
+Proof.
+  intros Hx H; revert i; induction H as [|y l Hy Hl IH]; intros i; [destruct i; constructor|].
+  destruct i; cbn [set_nth]; constructor; auto.
+Qed.
+
+Section Readers.
+  Variables (St Cmd Ans : Type).
+  Variable exec : St -> Cmd -> St * Ans.
+  Variable Ag : Type.
+  Variable next : Ag -> option (Cmd * (Ans -> Ag)).
+  Variable ro : Ag -> Prop.
+  Hypothesis ro_step : forall a c k, ro a -> next a = Some (c, k) ->
+      (forall s, fst (exec s c) = s) /\ forall ans, ro (k ans).
+
+  Lemma readers_erase sch : forall s owners readers,
+    Forall ro readers ->
+    exists readers', Forall ro readers' /\ length readers' = length readers /\
+      sched exec next sch s (owners ++ readers) =
+      (fst (sched exec next (filter (fun i => Nat.ltb i (length owners)) sch) s owners),
+       snd (sched exec next (filter (fun i => Nat.ltb i (length owners)) sch) s owners) ++ readers').
+  Proof.
+    induction sch as [|i sch IH]; intros s owners readers Hro; cbn [filter sched].
+    - exists readers. split; [exact Hro|]. split; reflexivity.
+    - destruct (Nat.ltb i (length owners)) eqn:Ei.
+      + apply Nat.ltb_lt in Ei. cbn [sched]. rewrite nth_error_app1 by exact Ei.
+        destruct (nth_error owners i) as [a|] eqn:Ea; [|apply nth_error_None in Ea; lia].
+        destruct (astep exec next s a) as [s' a'].
+        rewrite set_nth_app1 by exact Ei.
+        destruct (IH s' (set_nth i a' owners) readers Hro) as (rs & H1 & H2 & H3).
+        rewrite length_set_nth in H3. exists rs. repeat split; assumption.
+      + apply Nat.ltb_ge in Ei. rewrite nth_error_app2 by exact Ei.
+        destruct (nth_error readers (i - length owners)) as [a|] eqn:Ea; [|apply IH; exact Hro].
+        assert (Ha : ro a) by (rewrite Forall_forall in Hro; apply Hro; eapply nth_error_In; exact Ea).
+        unfold astep. destruct (next a) as [[c k]|] eqn:En.
+        * destruct (ro_step a c k Ha En) as [Hs Hk]. specialize (Hs s).
+          destruct (exec s c) as [s' ans]. cbn [fst] in Hs. subst s'.
+          rewrite set_nth_app2 by exact Ei.
+          destruct (IH s owners (set_nth (i - length owners) (k ans) readers)) as (rs & H1 & H2 & H3).
+          { apply Forall_set_nth; [apply Hk|exact Hro]. }
+          rewrite length_set_nth in H2. exists rs. repeat split; assumption.
+        * rewrite set_nth_app2 by exact Ei.
+          destruct (IH s owners (set_nth (i - length owners) a readers)) as (rs & H1 & H2 & H3).
+          { apply Forall_set_nth; assumption. }
+          rewrite length_set_nth in H2. exists rs. repeat split; assumption.
+  Qed.
+End Readers.
+
+Section ReadOnlyProgs.
+  Variables (St Cmd Ans : Type).
+  Variable exec : St -> Cmd -> St * Ans.
+  Variable prog_of : op -> prog Cmd Ans res.
+
+  Inductive ro_prog : prog Cmd Ans res -> Prop :=
+  | rop_ret r : ro_prog (Ret r)
+  | rop_do c k : (forall s, fst (exec s c) = s) -> (forall a, ro_prog (k a)) -> ro_prog (Do c k).
+
+  Lemma ro_prog_run p s : ro_prog p -> fst (run exec p s) = s.
+  Proof.
+    induction 1 as [r|c k Hc Hk IH]; cbn [run]; [reflexivity|].
+    specialize (Hc s). destruct (exec s c) as [s' a]. cbn [fst] in Hc. subst s'. apply IH.
+  Qed.
+
+  Definition th_ro (th : thread Cmd Ans) : Prop :=
+    (forall o p, th_cur th = Some (o, p) -> ro_prog p) /\
+    Forall (fun o => ro_prog (prog_of o)) (th_todo th).
+
+  Lemma settle_ro d o p todo : ro_prog p -> Forall (fun o => ro_prog (prog_of o)) todo -> th_ro (settle d o p todo).
+  Proof.
+    intros Hp Ht. destruct p as [r|c k]; cbn [settle]; split; cbn [th_cur th_todo]; try assumption.
+    - intros o' p' E; discriminate.
+    - intros o' p' E; inversion E; subst. exact Hp.
+  Qed.
+
+  Lemma th_ro_step th c k :
+    th_ro th -> th_next prog_of th = Some (c, k) -> (forall s, fst (exec s c) = s) /\ forall a, th_ro (k a).
+  Proof.
+    intros (Hc & Ht) E. unfold th_next in E.
+    destruct (th_cur th) as [[o p]|] eqn:Ec.
+    - destruct p as [r|c' k']; [discriminate|]. inversion E; subst c' k.
+      pose proof (Hc o _ eq_refl) as Hp. inversion Hp as [|? ? H1 H2]; subst.
+      split; [exact H1|]. intros a. apply settle_ro; [apply H2|exact Ht].
+    - destruct (th_todo th) as [|o rest] eqn:Et; [discriminate|].
+      inversion Ht as [|? ? Ho Hrest]; subst.
+      destruct (prog_of o) as [r|c' k'] eqn:Ep; [discriminate|]. inversion E; subst c' k.
+      inversion Ho as [|? ? H1 H2]; subst.
+      split; [exact H1|]. intros a. apply settle_ro; [apply H2|exact Hrest].
+  Qed.
+
+  Lemma th_start_ro ops : Forall (fun o => ro_prog (prog_of o)) ops -> th_ro (th_start ops).
+  Proof. intros H. split; [intros o p E; discriminate|exact H]. Qed.
+
+  Lemma sched_length sc : forall s (ths : list (thread Cmd Ans)),
+    length (snd (sched exec (th_next prog_of) sc s ths)) = length ths.
+  Proof.
+    induction sc as [|i sc IH]; intros s ths; cbn [sched snd]; [reflexivity|].
+    destruct (nth_error ths i) as [a|]; [|apply IH].
+    destruct (astep exec (th_next prog_of) s a) as [s' a']. rewrite IH, length_set_nth. reflexivity.
+  Qed.
+
+  (* reader threads are invisible to everybody else, under every schedule *)
+  Theorem readers_invisible sch s (owners : list (thread Cmd Ans)) (reader_ops : list (list op)) :
+    Forall (Forall (fun o => ro_prog (prog_of o))) reader_ops ->
+    let own_sch := filter (fun i => Nat.ltb i (length owners)) sch in
+    fst (sched exec (th_next prog_of) sch s (owners ++ map th_start reader_ops)) =
+      fst (sched exec (th_next prog_of) own_sch s owners) /\
+    firstn (length owners) (snd (sched exec (th_next prog_of) sch s (owners ++ map th_start reader_ops))) =
+      snd (sched exec (th_next prog_of) own_sch s owners).
+  Proof.
+    intros Hro own_sch.
+    destruct (readers_erase St Cmd Ans exec (thread Cmd Ans) (th_next prog_of) th_ro th_ro_step sch s owners
+                (map th_start reader_ops)) as (rs & _ & _ & E).
+    { rewrite Forall_map. eapply Forall_impl; [|exact Hro]. intros ops H. apply th_start_ro. exact H. }
+    fold own_sch in E. rewrite E. cbn [fst snd]. split; [reflexivity|].
+    assert (L : length (snd (sched exec (th_next prog_of) own_sch s owners)) = length owners).
+    { apply sched_length. }
+    rewrite <- L, firstn_app, firstn_all, Nat.sub_diag. cbn [firstn]. apply app_nil_r.
+  Qed.
+End ReadOnlyProgs.
